@@ -137,11 +137,14 @@ class DefaultHandler(BaseHandler):
             }
             msg_record.update(msg)
             try:
-                json.dump(msg_record, msg_file)
+                line = json.dumps(msg_record)
             except Exception as e:
                 LOG.error(e)
                 LOG.info('raw message %s', msg)
-            msg_file.write('\n')
+                # not JSON serializable: still one complete record, with the payload as text
+                msg_record.update({key: repr(value) for key, value in msg.items()})
+                line = json.dumps(msg_record)
+            msg_file.write(line + '\n')
             self.msg_sequence[peer.lower()] += 1
             msg_file.flush()
             os.fsync(msg_file.fileno())
